@@ -398,6 +398,11 @@ class LowerToIRVisitor(Visitor.DefaultVisitor):
     def v_ConstructPrimitiveExpression(self, expr, ctx):
         values = [self.v_Visit(e, ctx) for e in expr]
 
+        if expr.GetType().IsScalar():
+            # T(x) for a scalar T is a conversion, and the argument has been
+            # cast to T already
+            return values[0]
+
         cpi = LinearIR.ConstructPrimitiveInstruction(
             ctx.AdaptType(expr.GetType()), values
         )
